@@ -278,7 +278,13 @@ def classify(results, wanted, stdout, prop, also_owns=()):
                 elif "unsupported" in low or "unstable vtable" in low or "not currently supported" in low or "is not supported" in low:
                     undecided.append((short, "unsupported construct reached: %s at %s" % (clean, where)))
                 else:
-                    name = clean.split(":")[0] if is_named else "kani_safety(%s)" % clean
+                    if is_named:
+                        name = clean.split(":")[0]
+                    elif clean.startswith("|"):
+                        # the text of a Kani function-contract clause (ensures closure) is its description
+                        name = "contract_ensures(%s)" % re.sub(r"\s+", " ", clean)[:90]
+                    else:
+                        name = "kani_safety(%s)" % clean
                     refuted.append({"harness": short, "obligation": name, "description": clean, "location": where})
             elif status == "Unreachable":
                 # Kani reach-check on code this harness never executes (generic templates guard some
@@ -543,7 +549,7 @@ def main():
         own = []
         for it in refuted:
             tag = it["obligation"][:3]
-            if prop in ("DEV", "DIA", "CON") or it["obligation"].startswith("kani_safety") or tag == prop or it["obligation"].startswith("U_") or any(re.match(a, it["obligation"]) for a in cfg.get("also_owns", [])):
+            if prop in ("DEV", "DIA", "CON") or it["obligation"].startswith("kani_safety") or it["obligation"].startswith("contract_ensures") or tag == prop or it["obligation"].startswith("U_") or any(re.match(a, it["obligation"]) for a in cfg.get("also_owns", [])):
                 own.append(it)
             else:
                 # an obligation owned by another property failed in a shared harness: the paths behind
@@ -586,6 +592,7 @@ def main():
             print("VIOLATION property=%s replay=%s obligation=%s%s" % (prop, replay_path, new_viol[0]["obligation"], "" if found else " no-failing-input-found"))
         elif undecided:
             exit_code = 2
+        undecided.sort(key=lambda u: 0 if ("unwinding bound" in u[1] or "no result" in u[1] or "zero obligations" in u[1]) else 1)
         for h, why in undecided[:40]:
             log("UNDECIDED %s: %s" % (h, why))
 
